@@ -316,7 +316,7 @@ class ReadUnit(Unit):
     bounded = {'listed log files': '0..3 (+ 0..2 appearing through autorefresh)'}
     mutants = (
         ('exhausted file: index not advanced', f'{ROLL}::RollLog.read', "                    self.read_file = read_file = None\n                    self.read_idx  = read_idx\n", "                    self.read_file = read_file = None\n", 'C13.cursor'),
-        ('last file closed at its end (would be re-read from the start)', f'{ROLL}::RollLog.read', "                        if not autorefresh:\n                            return None\n\n                        autorefresh = False\n\n                        self.refresh_logfiles()\n\n                        if (read_idx := self.read_idx + 1)", "                        if not autorefresh:\n                            read_file.close(); self.read_file = None; return None\n\n                        autorefresh = False\n\n                        self.refresh_logfiles()\n\n                        if (read_idx := self.read_idx + 1)", 'C13.cursor'),
+        ('last file closed at its end (would be re-read from the start)', f'{ROLL}::RollLog.read', "                        if not autorefresh:\n                            return None\n\n                        autorefresh = False\n\n                        self.refresh_logfiles()\n\n                        # if the file", "                        if not autorefresh:\n                            read_file.close(); self.read_file = None; return None\n\n                        autorefresh = False\n\n                        self.refresh_logfiles()\n\n                        # if the file", 'C13.cursor'),
         ('deleted file: index moves two on', f'{ROLL}::RollLog.read', 'self.read_idx = read_idx = read_idx + 1', 'self.read_idx = read_idx = read_idx + 2', 'C13.cursor'),
     )
 
